@@ -179,7 +179,7 @@ static const char* const g_fname[F_NFORMS] = { "Array0(s,t)", "Array0(s)", "Arra
        "allocate", "reallocate", "resize", "push_back", "destroy", "reserve", "write", "front()=", "back()=", "*(begin()+k)=", "*(end()-j)=", "baseptr()[k]=", "operator[]=",
        "read", "operator[]const", "*(begin()+k)const", "front()const", "back()const", "*(end()-j)const", "baseptr()const[k]" };
 static long g_fc[F_NFORMS];
-static long g_step = 0;                            // operations applied so far in this process: selects the write call form
+static long g_step = 0, g_refused = 0;          // g_refused: requests the allocator refused (GivError caught) in this process                            // operations applied so far in this process: selects the write call form
 // GMP allocation balance (all commands): every Integer element constructed by a container must be destroyed by it
 static long g_gmp_out = 0;
 static void* c_alloc(size_t n) { ++g_gmp_out; return malloc(n); }
@@ -214,7 +214,23 @@ template <class T> struct World {
         default: return 0;
         }
     }
+    // one operation; a request the block allocator refuses (GivError: no size class holds it) is CAUGHT here, the sequence goes on with the
+    // handle as the library left it.  The oracle (independent of the Coq model) then expects: reallocate / resize / push_back / copy /
+    // operator= / reserve -> nothing changed; allocate -> the handle is empty (it gave up its storage); a constructor -> no object came to
+    // life (the slot is default-constructed again).  Every other handle is untouched in all cases.
     void apply(const Op& o) {
+        try { apply_raw(o); }
+        catch (GivError&) {
+            ++g_refused;
+            switch (o.kind) {
+            case 'B': case 'W': new (&buf[o.h]) Acc<T>(0); orc.detach(o.h); break;
+            case 'A': orc.detach(o.h); break;
+            default: break;
+            }
+        }
+        if (addr) for (int i = 0; i < nh; ++i) { addr_id(H(i).dat()); addr_id(H(i).cnt()); }
+    }
+    void apply_raw(const Op& o) {
         Acc<T>& x = H(o.h);
         ++g_step;
         switch (o.kind) {
@@ -248,11 +264,12 @@ template <class T> struct World {
             }
             orc.write(o.h, k, o.b); break; }
         }
-        if (addr) for (int i = 0; i < nh; ++i) { addr_id(H(i).dat()); addr_id(H(i).cnt()); }
     }
+    bool sane(int i) { Acc<T>& x = H(i); return x.size() == orc.h[i].size && (x.size() == 0 || x.dat() != 0) && x.size() <= x.psz(); }
     void observe(std::vector<long>& out) {
         for (int i = 0; i < nh; ++i) {
             Acc<T>& x = H(i);
+            if (!sane(i)) { out.push_back(-7); out.push_back((long) x.size()); out.push_back((long) x.psz()); continue; }
             out.push_back((long) x.size()); out.push_back((long) x.psz());
             if (x.cnt()) { out.push_back(1); out.push_back(x.getCounter()); } else { out.push_back(0); out.push_back(g_fxc ? x.getCounter() : 0); }
             if (addr) { out.push_back(addr_id(x.dat())); out.push_back(addr_id(x.cnt())); }
@@ -284,7 +301,8 @@ template <class T> struct World {
             if (addr) { if (x.dat()) o << addr_id(x.dat()); else o << "-"; o << ","; if (x.cnt()) o << addr_id(x.cnt()); else o << "-"; }
             else o << "?,?";
             o << "[";
-            for (size_t k = 0; k < x.size(); ++k) { if (k) o << " "; o << cell(i, k); }
+            if (!sane(i)) o << "!unreadable: size " << x.size() << " capacity " << x.psz() << (x.dat() ? "" : " null storage");
+            else for (size_t k = 0; k < x.size(); ++k) { if (k) o << " "; o << cell(i, k); }
             o << "] ";
         }
         if (addr) o << "out=" << pool_outstanding() << " ";
@@ -295,7 +313,8 @@ template <class T> struct World {
         std::ostringstream o;
         for (int i = 0; i < nh; ++i) {
             Acc<T>& x = H(i);
-            if (x.size() != orc.h[i].size) { o << "h" << i << ".size=" << x.size() << " expected " << orc.h[i].size << "; "; continue; }
+            if (x.size() != orc.h[i].size) { o << "h" << i << ".size=" << x.size() << " expected " << orc.h[i].size << (x.dat() ? "" : " (null storage)") << "; "; continue; }
+            if (x.size() > x.psz() || (x.size() > 0 && !x.dat()) || (x.psz() > 0 && !x.cnt())) { o << "h" << i << " inconsistent: size " << x.size() << " capacity " << x.psz() << (x.dat() ? "" : " null storage") << (x.cnt() ? "" : " null counter") << "; "; continue; }
             long c = (x.cnt() || g_fxc) ? x.getCounter() : 0;       // an empty array: 0 sharers (getCounter() itself only with the repair of frag/C17.fix-11)
             if (c != orc.counter(i)) o << "h" << i << ".counter=" << c << " expected " << orc.counter(i) << "; ";
             for (size_t k = 0; k < x.size(); ++k) {
@@ -401,7 +420,7 @@ template <class T> struct Enum {
         const long gmp0 = g_gmp_out;
         visit1(seq, mx);
         // every element the containers constructed has been destroyed again (Integer elements own GMP limbs)
-        if (g_gmp_out != gmp0 && nextra < 20) { ++nextra; extra << "\nGMP-LEAK " << show_seq(seq) << ": " << (g_gmp_out - gmp0) << " GMP allocation(s) outstanding after all handles were destroyed"; }
+        if (g_gmp_out != gmp0 && !stop_here && nextra < 20) { ++nextra; extra << "\nGMP-LEAK " << show_seq(seq) << ": " << (g_gmp_out - gmp0) << " GMP allocation(s) outstanding after all handles were destroyed"; }
         if ((int) seq.size() < lmax && !stop_here)
             for (size_t i = 0; i < alpha.size(); ++i) {
                 int m = used_after(mx, alpha[i]);
@@ -426,10 +445,11 @@ template <class T> struct Enum {
             w.cleanup(); stop_here = true;
             return;
         }
+        std::string diff = w.oracle_diff();
         std::vector<long> obs; w.observe(obs);
         for (size_t i = 0; i < obs.size(); ++i) mix(obs[i]);
-        std::string diff = w.oracle_diff();
         if (!diff.empty() && nextra < 20) { ++nextra; extra << "\nORACLE-MISMATCH " << show_seq(seq) << ": " << diff; }
+        if (!diff.empty()) { stop_here = true; pool_baseline(); return; }      // the objects may be half-updated: not destroyed, not extended
         w.cleanup();
         if (addr) { long po = pool_outstanding(); if (po != 0 && nextra < 20) { ++nextra; extra << "\nPOOL-LEAK " << show_seq(seq) << ": outstanding=" << po; } }
     }
@@ -744,6 +764,43 @@ static std::string cmd_implicitcopy() {
     return out.str();    // *a is deliberately not destroyed: its block may already be released
 }
 
+// refused requests at the REAL limit: arrays of exactly cap = TabSize[511] / sizeof(T) elements (served), then one element more (GivError).
+// Every member that can make a request is driven on a shared, on a solely owned and on an empty handle; after the caught GivError the handle
+// is observed and used again.  Prints one token per check; all must read "ok".
+template <class T> static std::string refuse_probe() {
+    std::ostringstream o; const size_t cap = tabsize_at(511) / sizeof(T);
+    #define CHK(name, cond) o << name << (cond ? "=ok " : "=BAD ")
+    #define REFUSED(stmt) ([&]() { try { stmt; } catch (GivError&) { return true; } return false; }())
+    {
+        Acc<T> a(cap, T(3)); Acc<T> b(a, givNoCopy());               // shared, full
+        bool r1 = REFUSED(a.push_back(T(5)));
+        CHK("push_back-shared-refused", r1); CHK("push_back-shared-unchanged", a.size() == cap && a.psz() == cap && a.getCounter() == 2 && a.dat() == b.dat() && cell_value(a[cap - 1]) == 3);
+        bool r2 = REFUSED(a.resize(cap + 1)); bool r3 = REFUSED(a.reallocate(cap + 7)); bool r4 = REFUSED(a.reserve(cap + 1));
+        CHK("resize/reallocate/reserve-shared-refused", r2 && r3 && r4); CHK("...-unchanged", a.size() == cap && a.getCounter() == 2 && a.dat() == b.dat() && cell_value(a[0]) == 3);
+        bool r5 = REFUSED(a.allocate(cap + 1));
+        CHK("allocate-shared-refused", r5); CHK("allocate-shared-target-empty", a.size() == 0 && a.psz() == 0 && a.dat() == 0 && a.cnt() == 0);
+        CHK("allocate-shared-sharer-intact", b.size() == cap && b.getCounter() == 1 && cell_value(b[cap / 2]) == 3);
+        a.push_back(T(9)); CHK("reuse-after-refusal", a.size() == 1 && cell_value(a[0]) == 9 && a.getCounter() == 1);
+        bool r6 = REFUSED(b.push_back(T(5)));                            // sole owner, full
+        CHK("push_back-sole-refused", r6); CHK("push_back-sole-unchanged", b.size() == cap && b.getCounter() == 1 && cell_value(b[cap - 1]) == 3);
+        bool r7 = REFUSED(b.allocate(cap + 1));
+        CHK("allocate-sole-refused", r7); CHK("allocate-sole-target-empty", b.size() == 0 && b.psz() == 0 && b.dat() == 0 && b.cnt() == 0);
+    }
+    {
+        Acc<T> e(0);                                                      // empty
+        bool r1 = REFUSED(e.allocate(cap + 1)); bool r2 = REFUSED(e.reallocate(cap + 1)); bool r3 = REFUSED(e.resize(9000000)); bool r4 = REFUSED(e.reserve(cap + 1));
+        CHK("empty-handle-refused", r1 && r2 && r3 && r4); CHK("empty-handle-still-empty", e.size() == 0 && e.psz() == 0 && e.dat() == 0 && e.cnt() == 0);
+        e.push_back(T(1)); CHK("empty-handle-usable", e.size() == 1);
+        bool r5 = REFUSED(Acc<T> z(cap + 1)); bool r6 = REFUSED(Acc<T> z(cap + 1, T(2)));
+        CHK("constructors-refused", r5 && r6);
+        Acc<T> src(5, T(4)); Acc<T> dst(cap, T(1));                     // copy / operator= / copy constructors never need more than the source holds
+        dst.copy(src); CHK("copy-down", dst.size() == 5 && cell_value(dst[4]) == 4);
+    }
+    #undef CHK
+    #undef REFUSED
+    return o.str();
+}
+
 int main() {
     mp_set_memory_functions(c_alloc, c_realloc, c_free);
     const char* f = getenv("C17_FORMS"); g_forms = f ? atoi(f) : 0;
@@ -786,6 +843,9 @@ int main() {
             std::ostringstream o; o << "dirty " << n; r = o.str();
         }
         else if (t[0] == "refcounter") { r = cmd_refcounter(); }
+        else if (t[0] == "refuseprobe") { pool_baseline(); const long g0 = g_gmp_out; r = "int: " + refuse_probe<int>() + "Integer: " + refuse_probe<Integer>();
+            std::ostringstream o; o << "gmp=" << (g_gmp_out - g0); r += o.str(); }
+        else if (t[0] == "refusedcount") { std::ostringstream o; o << "REFUSED " << g_refused; r = o.str(); }
         else if (t[0] == "hang") { volatile unsigned long z = 0; for (;;) ++z; }       // self-test of the watchdog
         // ---- unguarded probes of the findings filed in phase 4: each in its own process, each may crash
         else if (t[0] == "resize00") {      // GivMMFreeList::resize(0, 0, 0): the null pointer, nothing allocated (as it is: TabFree[-1])
